@@ -86,10 +86,14 @@ func mgClassify(e error) mgErr {
 	return mgErr{Kind: "syntax", Line: -1, Col: -1, Msg: e.Error()}
 }
 
-func markerOf(u *openfgav1.Userset, md *openfgav1.RelationMetadata) string {
+func markerOf(name string, u *openfgav1.Userset, md *openfgav1.RelationMetadata) string {
 	m := []string{}
 	for _, r := range md.GetDirectlyRelatedUserTypes() {
 		m = append(m, r.GetType())
+		// a restriction own_<relation> says whose metadata this is: under another relation it is somebody else's
+		if strings.HasPrefix(r.GetType(), "own_") && r.GetType() != "own_"+name {
+			return "METADATA-OF-" + strings.TrimPrefix(r.GetType(), "own_") + "|" + absRw(u).K
+		}
 	}
 	// the first restriction names the file the relation was written in (k<file number>); layouts may append others
 	if len(m) > 1 {
@@ -142,7 +146,7 @@ func runMerge(files []mgFile, schema string) *mgOutcome {
 				if verr != nil {
 					via = "ERROR:" + verr.Error()
 				}
-				o.Rels = append(o.Rels, []string{td.GetType(), name, md.GetModule(), md.GetSourceInfo().GetFile(), markerOf(rw, md), via})
+				o.Rels = append(o.Rels, []string{td.GetType(), name, md.GetModule(), md.GetSourceInfo().GetFile(), markerOf(name, rw, md), via})
 			}
 			for name := range td.GetMetadata().GetRelations() {
 				if _, ok := td.GetRelations()[name]; !ok {
